@@ -2,7 +2,8 @@
 # usage: tools/replay_refactorings.sh  - every stored behaviour-preserving patch must leave all 20 checks at exit 0
 bad=0
 for d in /verif/refactorings/*/; do
-  out=$(/verif/tools/try_refactor.sh "$d/patch.diff" 2>&1); echo "== $(basename $d): $(echo "$out" | tail -1)"
+  u=""; [ -f "$d/UNDECIDED_OK" ] && u=$(cat "$d/UNDECIDED_OK")
+  out=$(UNDECIDED_OK="$u" /verif/tools/try_refactor.sh "$d/patch.diff" 2>&1); echo "== $(basename $d): $(echo "$out" | tail -1)"
   echo "$out" | grep -q "checks not at exit 0: 0" || { bad=$((bad+1)); echo "$out" | tail -6; }
 done
 echo "refactoring patches with alarms: $bad"; [ $bad -eq 0 ]
